@@ -3,7 +3,7 @@ the ordered list of their components."""
 from .terms import is_call
 
 EXTENDERS = {"extend_from_slice", "extend", "push", "push_str", "append", "update", "chain_update"}
-TRANSPARENT_WRAPPERS = {"index", "as_slice", "as_ref", "deref", "to_vec", "iter", "into_iter", "cloned", "copied", "collect",
+TRANSPARENT_WRAPPERS = {"index", "as_slice", "as_ref", "deref", "to_vec", "iter", "into_iter", "cloned", "copied", "collect", "from_iter",
                         "concat", "as_bytes_ref"}
 
 
